@@ -67,6 +67,12 @@ class C09(Prop):
             yield Case('reduce', ('mergeduplicates', False, bs, t,
                                   rng.choice([hdr[0], (hdr[0],), (hdr[0], hdr[1]), hdr[1], (hdr[1], hdr[0]), hdr[-1]]),
                                   rng.choice([None, None, 'x'])))
+            # ragged rows (the key cell is always there) with and without a missing value of its own
+            rag1 = (hdr,) + tuple(r if rng.random() < 0.5 else r[:rng.choice([1, max(1, w - 1)])] for r in rows)
+            yield Case('reduce', ('mergeduplicates', False, bs, rag1, rng.choice([hdr[0], (hdr[0],)]),
+                                  rng.choice([None, 'x', 'M'])))
+            # rowgroupmap: the mapper sees each group once, groups in ascending key order, rows in table order, any buffersize
+            yield Case('rgm', (rng.choice([hdr[0], (hdr[0], hdr[1]), hdr[1]]), rng.choice([None, 1, 2, 3]), t))
             # groupcountdistinctvalues: per key, the number of distinct values (judged on the implementation's output)
             yield Case('gcdv', (hdr[0], hdr[1], t))
             rag = (hdr,) + tuple(r if rng.random() < 0.6 else r[:rng.choice([0, 1])] for r in rows)
@@ -80,6 +86,8 @@ class C09(Prop):
             try:
                 if case.arg and case.arg[0] == 'vcm':
                     return codec.t_bool(self._vcm(*case.arg[1:]))
+                if case.arg and case.arg[0] == 'rgm':
+                    return codec.t_bool(self._rgm(*case.arg[1:]))
                 return codec.t_bool(self._gcdv(*case.arg))
             except Exception as e:   # noqa
                 return obs_exc(e)
@@ -129,7 +137,65 @@ class C09(Prop):
             return Case('const_true', case.arg, dict(case.meta, orig='gcdv'))
         if case.op == 'vcm':
             return Case('const_true', ('vcm',) + tuple(case.arg), dict(case.meta, orig='vcm'))
+        if case.op == 'rgm':
+            return Case('const_true', ('rgm',) + tuple(case.arg), dict(case.meta, orig='rgm'))
         return case
+
+    @staticmethod
+    def _sorted_groups(t, key):
+        """[(key value, [rows in table order])] in ascending key order - a reference that uses nothing of petl but Comparable"""
+        from petl.comparison import Comparable
+        hdr = list(t[0])
+        idx = [hdr.index(k) for k in (key if isinstance(key, tuple) else (key,))]
+        kf = (lambda r: r[idx[0]]) if not isinstance(key, tuple) else (lambda r: tuple(r[i] for i in idx))
+        groups = []          # in order of first appearance, keys compared with ==
+        for r in t[1:]:
+            for g in groups:
+                if Comparable(g[0]) == Comparable(kf(r)):
+                    g[1].append(tuple(r))
+                    break
+            else:
+                groups.append((kf(r), [tuple(r)]))
+        # ascending key order (the C04 ordering); a stable insertion sort so that nothing but < is used
+        srt = []
+        for g in groups:
+            i = len(srt)
+            while i > 0 and Comparable(g[0]) < Comparable(srt[i - 1][0]):
+                i -= 1
+            srt.insert(i, g)
+        return srt
+
+    def _md_expected(self, t, key, missing):
+        """mergeduplicates as documented: per key one row; per other field the one value present, `missing` when there is none,
+        a Conflict of the distinct values otherwise; cells a short row does not have count as absent"""
+        hdr = list(t[0])
+        if isinstance(key, tuple) and len(key) == 1:
+            key = key[0]
+        keys = key if isinstance(key, tuple) else (key,)
+        vidx = [i for i, f in enumerate(hdr) if f not in keys]
+        out = [tuple(keys) + tuple(hdr[i] for i in vidx)]
+        for k, rows in self._sorted_groups(t, key):
+            o = list(k) if isinstance(key, tuple) else [k]
+            for i in vidx:
+                vals = []
+                for r in rows:
+                    if len(r) > i and r[i] != missing and not any(r[i] == v for v in vals):
+                        vals.append(r[i])
+                o.append(vals[0] if len(vals) == 1 else missing if not vals else ('!conflict',) + tuple(vals))
+            out.append(tuple(o))
+        return out
+
+    def _rgm(self, key, bs, t):
+        import petl as etl
+        srt = self._sorted_groups(t, key)
+        want = [('k', 'n', 'rows')] + [(g[0], len(g[1]), tuple(g[1])) for g in srt]
+
+        def mapper(k, rows):
+            rows = [tuple(r) for r in rows]
+            yield [k, len(rows), tuple(rows)]
+        kw = {} if bs is None else {'buffersize': bs}
+        got = [tuple(r) for r in etl.rowgroupmap([list(r) for r in t], key, mapper, header=['k', 'n', 'rows'], **kw)]
+        return got == want
 
     def _vcm(self, field, missing, t):
         """valuecounts(table, field, missing=m): short rows count under m; counts sum to the number of rows"""
@@ -176,6 +242,11 @@ class C09(Prop):
                 if case.arg[0] == 'vcm':
                     _, field, missing, t = case.arg
                     return len(t) >= 1 and field in t[0] and len(set(t[0])) == len(t[0])
+                if case.arg[0] == 'rgm':
+                    _, key, bs, t = case.arg
+                    ks = key if isinstance(key, tuple) else (key,)
+                    return (len(t) >= 1 and all(k in t[0] for k in ks) and len(set(t[0])) == len(t[0])
+                            and all(len(r) == len(t[0]) for r in t[1:]) and (bs is None or (isinstance(bs, int) and bs >= 1)))
                 key, value, t = case.arg
                 return len(t) >= 1 and key in t[0] and value in t[0] and all(len(r) == len(t[0]) for r in t[1:])
             except Exception:
@@ -184,15 +255,29 @@ class C09(Prop):
             t = case.arg[3]
             if len(t) < 1 or len(t[0]) < 1 or not all(isinstance(f, str) for f in t[0]):
                 return False
-            if len(set(t[0])) != len(t[0]) or not all(len(r) == len(t[0]) for r in t[1:]):
+            if len(set(t[0])) != len(t[0]):
                 return False
-            return True
+            if case.arg[0] == 'mergeduplicates':
+                return all(1 <= len(r) <= len(t[0]) for r in t[1:])     # short rows allowed, the key cell is there
+            return all(len(r) == len(t[0]) for r in t[1:])
         except Exception:
             return False
 
     def spec(self, case, impl_obs, model_obs):
         if case.op == 'const_true':
             return impl_obs == codec.t_bool(True)
+        if case.op == 'reduce' and case.arg[0] == 'mergeduplicates' and impl_obs[0] == 'li' and self.valid(case):
+            t, key, missing = case.arg[3], case.arg[4], case.arg[5]
+            try:
+                ks = key if isinstance(key, tuple) else (key,)
+                if not all(k in t[0] for k in ks) or len(set(ks)) != len(ks):
+                    return None
+                if any(len(r) <= max(list(t[0]).index(k) for k in ks) for r in t[1:]):
+                    return None
+                want = ('li', tuple(('tu', tuple(codec.canon(x) for x in r)) for r in self._md_expected(t, key, missing)))
+            except Exception:
+                return None
+            return canon_conflicts(want) == canon_conflicts(impl_obs)
         return None
 
     def spec_case(self, case, impl_obs):
@@ -217,7 +302,7 @@ class C09(Prop):
         return None
 
     def nontrivial(self, case):
-        if case.op in ('const_true', 'gcdv'):
+        if case.op in ('const_true', 'gcdv', 'rgm', 'vcm'):
             return len(case.arg[-1]) >= 3
         return len(case.arg[3]) >= 3
 
